@@ -61,9 +61,10 @@ def do_replay(prop, path):
 
 
 def write_replay(prop, part, seed, tier, v, draws, shrink_info, decoded_res):
-    os.makedirs(os.path.join(VERIF_DIR, "replays"), exist_ok=True)
+    rdir = os.environ.get("VERIF_REPLAY_DIR") or os.path.join(VERIF_DIR, "replays")
+    os.makedirs(rdir, exist_ok=True)
     name = f"{prop}-{part['engine']}-{seed}-{v['index']}.json"
-    path = os.path.join(VERIF_DIR, "replays", name)
+    path = os.path.join(rdir, name)
     rp = {
         "property": prop,
         "class": v.get("class"),
@@ -221,8 +222,9 @@ def do_check(prop, tier):
         "violations": len(violations_out),
         "violation_reports": violations_out,
     }
-    os.makedirs(os.path.join(VERIF_DIR, "evidence"), exist_ok=True)
-    with open(os.path.join(VERIF_DIR, "evidence", f"{prop}.json"), "w") as f:
+    evdir = os.environ.get("VERIF_EVIDENCE_DIR") or os.path.join(VERIF_DIR, "evidence")
+    os.makedirs(evdir, exist_ok=True)
+    with open(os.path.join(evdir, f"{prop}.json"), "w") as f:
         json.dump(ev, f, indent=1, default=repr)
     _print(f"{prop} tier={tier} seed={seed} runs={total_runs} distinct_nontrivial={distinct_nontrivial} "
            f"violations={len(violations_out)} known={known_confirmed} harness_errors={len(harness_errors)} "
